@@ -200,8 +200,27 @@ def chronoLimit : Int := 80000000000000000000
 /-- `DateTime::checked_ticks` -/
 def dtChecked (t : Int) : Int := if t < 0 then 0 else if t > endTicks then i64Max else t
 
-/-- `DateTime::encode` -/
+/-- `DateTime::ticks()` / `duration_to_ticks` BEFORE the fix: `seconds * TICKS_PER_SECOND + nanos / 100`
+in `i64` with the dev-profile overflow check — `none` = panic ("attempt to multiply with overflow").
+A `DateTime` is the tick count `t` of the chrono value it wraps (any year −262143..262142, so `t` may lie
+outside the `i64` range: `DateTime::ymd(40000, 1, 1)`, `From<chrono::DateTime<Utc>>`, arithmetic). -/
+def ticksOld (t : Int) : Option Int :=
+  -- `seconds * TICKS_PER_SECOND`, `seconds` = whole seconds truncated towards zero
+  let p := if t ≥ 0 then t / 10000000 * 10000000 else -((-t) / 10000000 * 10000000)
+  if p > i64Max ∨ p < -i64Max - 1 then none
+  else if t > i64Max ∨ t < -i64Max - 1 then none
+  else some t
+
+/-- `DateTime::ticks()` after the fix: saturating arithmetic -/
+def ticksSat (t : Int) : Int := if t > i64Max then i64Max else if t < -i64Max - 1 then -i64Max - 1 else t
+
+/-- `DateTime::encode` = `write_i64(checked_ticks())`; `checked_ticks` clamps `ticks()` to 0 below the
+epoch and to `i64::MAX` above 9999-12-31, so with the saturating `ticks()` it is `dtChecked t` for every `t`
+(`dtChecked_ticksSat` in `Lemmas/EncLeaf.lean`). -/
 def encDateTime (t : Int) : Bytes := le64 (ofS64 (dtChecked t))
+
+/-- `DateTime::encode` before the fix: `none` = panic -/
+def encDateTimeOld (t : Int) : Option Bytes := (ticksOld t).map fun x => le64 (ofS64 (dtChecked x))
 
 /-- `DateTime::from(i64)`; `none` = the `chrono` addition panics -/
 def dtFromTicks (t : Int) : Option Int :=
